@@ -15,7 +15,8 @@
 (*            element uses sum(task clients) clients, cap > 0: `clients`   *)
 (*            of a parallel element                                        *)
 (*   task     [id, clients, reqs, cp, acp]: reqs > 0 requests per client   *)
-(*            or Eternal (runs until told to complete); cp =               *)
+(*            or Eternal (runs until told to complete) or Timed (a time   *)
+(*            period: ends after some request, when the period is over); cp = *)
 (*            completes_parent (named completed-by task), acp =            *)
 (*            any_completes_parent (completed-by: any)                     *)
 (*   workerOf <<w_0, …, w_{M-1}>>: worker (1..W) of client id c at c+1     *)
@@ -30,6 +31,7 @@ CONSTANTS Scenarios,     \* set of scenarios Init chooses from
           QMax,          \* capacity of a worker's sample queue (reporting/sample.queue.size)
           PPInterval,    \* coordinator wake-ups between two periodic post-processing runs
           TestMode,      \* track/test.mode.enabled: next task starts immediately, no relative-time reset timer
+          MaxTimed,      \* a time-period based task ends at the latest after MaxTimed requests per client in the model
           MaxEternal,    \* only the first MaxEternal requests of an eternal task are counted and sampled in the model
                          \* (keeps the state space finite without a state constraint); traces use a large value
           FlushFix,      \* TRUE: repaired Worker.drive (ships what is left in the sampler before replacing it by the sampler of
@@ -40,6 +42,7 @@ CONSTANTS Scenarios,     \* set of scenarios Init chooses from
           FaultKinds     \* set of fault kinds Init chooses from; {"none"} for the fault-free protocol (C01, C07)
 
 Eternal == -1
+Timed == -2
 
 VARIABLES scn,      \* the scenario (constant during a behaviour)
           d2w,      \* d2w[w]: FIFO channel coordinator -> worker w
@@ -308,13 +311,13 @@ ExecStart(w) ==
 (* tasks).  outcome = "ok" | "fatal" (the request or the runner fails fatally: RallyError out of     *)
 (* the executor, no sample) | "param" (the sample is recorded, then the parameter source raises     *)
 (* when asked for the next request)                                                                *)
-ExecStepWith(c, outcome) ==
+ExecStepWith(c, outcome, timeUp) ==
     LET w == scn.workerOf[c + 1]
         t == CellAt(scn, c, cell[c].col).t
-        rem1 == IF cell[c].rem = Eternal THEN Eternal ELSE cell[c].rem - 1
+        rem1 == IF cell[c].rem \in {Eternal, Timed} THEN cell[c].rem ELSE cell[c].rem - 1
         externally == IF t.cp THEN FALSE ELSE wk[w].complete
-        fails == outcome = "fatal" \/ (outcome = "param" /\ ~externally /\ rem1 # 0)
-        ends == fails \/ externally \/ rem1 = 0
+        fails == outcome = "fatal" \/ (outcome = "param" /\ ~externally /\ rem1 # 0 /\ ~timeUp)
+        ends == fails \/ externally \/ rem1 = 0 \/ timeUp      \* timeUp: the loop control finds the time period over
         setsComplete == ends /\ (t.cp \/ t.acp)
         others == {c2 \in ClientsOf(scn, w) : c2 # c /\ cell[c2].col = cell[c].col /\ cell[c2].st = "pend"}
         sampled == outcome # "fatal"
@@ -323,7 +326,9 @@ ExecStepWith(c, outcome) ==
         sid == <<c, cell[c].col, n1>>
         full == Len(wk[w].sampq) >= QMax
     IN /\ wk[w].alive /\ cell[c].st = "pend"
-       /\ outcome = "param" => (~externally /\ rem1 # 0)
+       /\ timeUp => cell[c].rem = Timed
+       /\ (cell[c].rem = Timed /\ outcome = "ok" /\ cell[c].n + 1 >= MaxTimed) => timeUp
+       /\ outcome = "param" => (~externally /\ rem1 # 0 /\ ~timeUp)
        /\ cell' = [c2 \in Clients(scn) |->
                      IF c2 = c THEN [col |-> cell[c].col, rem |-> IF outcome = "fatal" THEN cell[c].rem ELSE rem1, n |-> n1,
                                      st |-> IF fails THEN "failed" ELSE IF ends THEN "done" ELSE "pend"]
@@ -333,22 +338,23 @@ ExecStepWith(c, outcome) ==
                            ![w].fut = IF fails THEN "failed" ELSE IF ends /\ others = {} THEN "done" ELSE @,
                            ![w].sampq = IF full \/ ~counted THEN @ ELSE Append(@, sid)]
        /\ hist' = [hist EXCEPT !.fin = IF ends THEN @ \cup {<<c, cell[c].col>>} ELSE @,
-                               !.cut = IF ends /\ ~fails /\ rem1 # 0 THEN @ \cup {<<c, cell[c].col>>} ELSE @,
+                               !.cut = IF ends /\ ~fails /\ externally /\ rem1 # 0 /\ ~timeUp THEN @ \cup {<<c, cell[c].col>>} ELSE @,
                                !.produced = IF counted THEN @ \cup {sid} ELSE @,
                                !.dropped = IF full /\ counted THEN @ \cup {sid} ELSE @]
        /\ UNCHANGED <<d2w, w2d, timers>>
        /\ UNCHANGED <<scn, d2d, rc2d, rcbox, rcst, dtimers, drv>>
 
-ExecStep(c) == ExecStepWith(c, "ok") /\ UNCHANGED flt /\ act' = [name |-> "ExecStep", c |-> c]
+ExecStep(c) == /\ \E tu \in BOOLEAN : ExecStepWith(c, "ok", tu)
+               /\ UNCHANGED flt /\ act' = [name |-> "ExecStep", c |-> c]
 
 RaceRunning == \A i \in 1..Len(rcbox) : rcbox[i].k # "BenchmarkComplete"
 CanFault(k) == flt.kind = k /\ ~flt.fired /\ ~flt.armed /\ RaceRunning /\ drv.alive /\ rcst.alive
 
 (* fault: a request fails under on-error=abort / with a fatal connection error / the runner raises *)
-FReq(c) == /\ CanFault("req") /\ ExecStepWith(c, "fatal")
+FReq(c) == /\ CanFault("req") /\ ExecStepWith(c, "fatal", FALSE)
            /\ flt' = [flt EXCEPT !.fired = TRUE, !.armed = FALSE] /\ act' = [name |-> "FReq", c |-> c]
 (* fault: the parameter source raises *)
-FParam(c) == /\ CanFault("param") /\ ExecStepWith(c, "param")
+FParam(c) == /\ CanFault("param") /\ ExecStepWith(c, "param", FALSE)
              /\ flt' = [flt EXCEPT !.fired = TRUE, !.armed = FALSE] /\ act' = [name |-> "FParam", c |-> c]
 
 -----------------------------------------------------------------------------
